@@ -8,10 +8,23 @@ import vlib
 import p_val
 from vlib import ToolError, log
 
-FAMILIES_QUICK = [("prim", 1), ("object", 1), ("tuple", 1), ("union", 1), ("tpl", 1), ("nonjson", 1), ("format", 1), ("describe", 1)]
-FAMILIES_THOROUGH = [("prim", 2), ("object", 2), ("tuple", 2), ("union", 2), ("tpl", 2), ("nonjson", 2), ("format", 2), ("describe", 2)]
+FAMILIES_QUICK = [("prim", 1), ("object", 1), ("tuple", 1), ("union", 1), ("tpl", 1), ("nonjson", 1), ("format", 1), ("describe", 1), ("util", 1)]
+FAMILIES_THOROUGH = [("prim", 2), ("object", 2), ("tuple", 2), ("union", 2), ("tpl", 2), ("nonjson", 2), ("format", 2), ("describe", 2), ("util", 2)]
 
 DECL = re.compile(r"^type\s+([A-Za-z_$][A-Za-z0-9_$]*)\s*=", re.M)
+
+
+def ref_under_union(t, under=False):
+    """syntactic projection: is there a named reference (ref / enumref / app / typeof) beneath a union or intersection?"""
+    if isinstance(t, dict):
+        k = t.get("t")
+        if under and k in ("ref", "enumref", "enummember", "app", "typeof"):
+            return True
+        u = under or k in ("union", "inter")
+        return any(ref_under_union(v, u) for v in t.values())
+    if isinstance(t, list):
+        return any(ref_under_union(v, under) for v in t)
+    return False
 
 
 def vec(o):
@@ -60,6 +73,7 @@ def run(prop, tier):
     for i, c in enumerate(cases):
         o1 = obs1.get(i)
         rec = {"id": i, "outcome": c["_comp"]["outcome"] if (o1 is None or o1["load"] == "ok") else "load-failed",
+               "refunder": ref_under_union(c["ty"]) or any(ref_under_union(d.get("ty", {})) for d in c["env"]),
                "tploneof": '"p": "oneof"' in json.dumps(c["ty"]) or '"p": "oneof"' in json.dumps(c["env"]), "desc1ok": False, "desc1": "", "decls": [], "vec1": "", "h1": "", "outcome2": "none", "vec2": "", "h2": "", "desc2": ""}
         if o1 is not None and o1["load"] == "ok":
             rec["desc1ok"] = o1["describe"]["ok"]
